@@ -247,4 +247,77 @@ theorem summary_sumsq_eq (inf : Nat) (x : Nat × Nat) (rest : List (Nat × Nat))
   intro p _
   rw [segDepth_reweight (fun d => d * d) (by simp) inf _ x.1 p hord, sweep_represents_depth inf x rest hv p]
 
+/-- in an ordered (hence disjoint) list, the depth at a position inside a segment is that segment's depth -/
+theorem ordered_depth_inside (hi : Nat) : ∀ (l : List Seg) (lo : Nat), Ordered lo hi l → ∀ g ∈ l, ∀ p, g.s ≤ p → p < g.e →
+    segDepth l p = g.d := by
+  intro l
+  induction l with
+  | nil => intro _ _ g hg; simp at hg
+  | cons x rest ih =>
+    intro lo h g hg p hp1 hp2
+    obtain ⟨a1, a2, a3, a4, a5⟩ := h
+    simp only [List.mem_cons] at hg
+    rcases hg with rfl | hg
+    · simp only [segDepth, Seg.at]
+      rw [ordered_zero_left hi rest g.e p a5 hp2, if_pos ⟨hp1, hp2⟩]; rfl
+    · -- `g` lies after `x`
+      have hgs : x.e ≤ g.s := by
+        clear ih
+        induction rest generalizing x with
+        | nil => simp at hg
+        | cons y ys ih2 =>
+          obtain ⟨b1, b2, b3, b4, b5⟩ := a5
+          simp only [List.mem_cons] at hg
+          rcases hg with rfl | hg
+          · exact b1
+          · have := ih2 y (by omega) b2 b3 b4 b5 hg
+            omega
+      simp only [segDepth, Seg.at]
+      have : ¬ (x.s ≤ p ∧ p < x.e) := by omega
+      rw [if_neg this, ih x.e a5 g hg p hp1 hp2]; simp
+
+/-- a covered position lies inside some emitted segment (of positive length) -/
+theorem ordered_cover_witness : ∀ (l : List Seg) (p : Nat), segDepth l p > 0 → ∃ g ∈ l, g.s ≤ p ∧ p < g.e := by
+  intro l
+  induction l with
+  | nil => intro p h; simp [segDepth] at h
+  | cons x rest ih =>
+    intro p h
+    simp only [segDepth, Seg.at] at h
+    by_cases hx : x.s ≤ p ∧ p < x.e
+    · exact ⟨x, by simp, hx⟩
+    · rw [if_neg hx] at h
+      obtain ⟨g, hg, hgp⟩ := ih p (by omega)
+      exact ⟨g, by simp [hg], hgp⟩
+
+/-- **Minimum and maximum (repaired rule: zero-length pieces are ignored).** The depths of the emitted
+    segments of positive length are exactly the depths the entries reach on covered bases: every such
+    segment's depth is the coverage at a base, and every covered base lies in such a segment carrying its
+    coverage. Hence min and max over those segments are min and max of the coverage over covered bases. -/
+theorem summary_minmax_exact (inf : Nat) (x : Nat × Nat) (rest : List (Nat × Nat)) (hv : Valid inf x.1 (x :: rest)) :
+    (∀ g ∈ (sweepAll inf (x :: rest) [] []).1, g.s < g.e → ∃ p, g.s ≤ p ∧ p < g.e ∧ depth (x :: rest) p = g.d) ∧
+    (∀ p, depth (x :: rest) p > 0 →
+        ∃ g ∈ (sweepAll inf (x :: rest) [] []).1, g.s < g.e ∧ g.s ≤ p ∧ p < g.e ∧ g.d = depth (x :: rest) p) := by
+  have hord := sweepAll_ordered inf x.1 (x :: rest) [] [] x.1 trivial trivial (Nat.le_refl _) hv
+  simp only [List.cons_ne_nil, if_false] at hord
+  constructor
+  · intro g hg hlen
+    refine ⟨g.s, Nat.le_refl _, hlen, ?_⟩
+    rw [← sweep_represents_depth inf x rest hv g.s]
+    exact ordered_depth_inside inf _ x.1 hord g hg g.s (Nat.le_refl _) hlen
+  · intro p hp
+    rw [← sweep_represents_depth inf x rest hv p] at hp
+    obtain ⟨g, hg, h1, h2⟩ := ordered_cover_witness _ p hp
+    refine ⟨g, hg, by omega, h1, h2, ?_⟩
+    rw [← sweep_represents_depth inf x rest hv p]
+    exact (ordered_depth_inside inf _ x.1 hord g hg p h1 h2).symm
+
+/-- D16: as found, zero-length pieces take part in the maximum -/
+def maxAll (l : List Seg) : Nat := l.foldl (fun m g => max m g.d) 0
+def maxNonEmpty (l : List Seg) : Nat := (l.filter fun g => g.s < g.e).foldl (fun m g => max m g.d) 0
+
+theorem phantom_pollutes_max :
+    let em := (sweepAll 1000 [(0,20),(0,10),(0,10),(10,20),(10,20),(10,20)] [] []).1
+    maxAll em = 5 ∧ maxNonEmpty em = 4 := by decide
+
 end SW
